@@ -380,12 +380,15 @@ def resolve(t: T, ctx: Ctx) -> T:
             return t
 
 
-def flat_alts(t: Uni) -> list:
-    """typing flattens nested unions (not through Annotated / NewType)"""
+def flat_alts(t: Uni, ctx: "Optional[Ctx]" = None) -> list:
+    """typing flattens nested unions (not through Annotated / NewType), also the ones that appear when a type variable
+    of the union is substituted (Optional[T][Optional[int]] is Optional[int]): with a ctx, type variables are resolved"""
     out = []
     for a in t.alts:
+        if ctx is not None and isinstance(a, TVar):
+            a = resolve(a, ctx)
         if isinstance(a, Uni):
-            for b in flat_alts(a):
+            for b in flat_alts(a, ctx):
                 if b not in out:
                     out.append(b)
         elif a not in out:
@@ -606,7 +609,7 @@ def _union(t: Uni, d, ctx, cons):
     first = None
     found = False
     others = []
-    for a in flat_alts(t):
+    for a in flat_alts(t, ctx):
         ra = resolve(a, ctx)
         if (isinstance(ra, Prim) and ra.kind == "undefined") or isinstance(ra, Unsup):
             continue
